@@ -196,15 +196,9 @@ class MatrixExpression:
         """Scalar division."""
         return _matrix_binary_op(self, other, "/")
 
-    def __rtruediv__(self, other: float | int) -> MatrixExpression:
-        """Right scalar division: other / self."""
-        rows, cols = self.shape
-        const = Constant(other)
-        result_exprs = [
-            [BinaryOp(const, self._expressions[i][j], "/") for j in range(cols)]
-            for i in range(rows)
-        ]
-        return MatrixExpression(result_exprs)
+    def __rtruediv__(self, other: float | int | NDArray) -> MatrixExpression:
+        """Right division: scalar / self or array / self (element-wise)."""
+        return _matrix_reflected_div(self._expressions, self.shape, other)
 
     def __neg__(self) -> MatrixExpression:
         """Negate all elements."""
@@ -264,6 +258,32 @@ class MatrixExpression:
             >>> s = (X * Y).sum()  # Hadamard product, then sum
         """
         return MatrixSum(self)
+
+
+def _matrix_reflected_div(
+    elements: Sequence[Sequence[Expression]],
+    shape: tuple[int, int],
+    other: float | int | NDArray,
+) -> MatrixExpression:
+    """Element-wise ``other / M`` for a scalar or an array of M's shape on the left."""
+    rows, cols = shape
+    if isinstance(other, np.ndarray) and other.ndim > 0:
+        if other.shape != (rows, cols):
+            raise DimensionMismatchError(
+                operation="division",
+                left_shape=other.shape,
+                right_shape=(rows, cols),
+            )
+        return MatrixExpression(
+            [
+                [BinaryOp(Constant(other[i, j]), elements[i][j], "/") for j in range(cols)]
+                for i in range(rows)
+            ]
+        )
+    const = Constant(other)
+    return MatrixExpression(
+        [[BinaryOp(const, elements[i][j], "/") for j in range(cols)] for i in range(rows)]
+    )
 
 
 def _matrix_binary_op(
@@ -989,15 +1009,9 @@ class MatrixVariable:
         """Scalar division: X / 2."""
         return _matrix_binary_op(self, other, "/")
 
-    def __rtruediv__(self, other: float | int) -> MatrixExpression:
-        """Right division: scalar / X."""
-        rows, cols = self.shape
-        const = Constant(other)
-        result_exprs = [
-            [BinaryOp(const, self._variables[i][j], "/") for j in range(cols)]
-            for i in range(rows)
-        ]
-        return MatrixExpression(result_exprs)
+    def __rtruediv__(self, other: float | int | NDArray) -> MatrixExpression:
+        """Right division: scalar / X or array / X (element-wise)."""
+        return _matrix_reflected_div(self._variables, self.shape, other)
 
     def __neg__(self) -> MatrixExpression:
         """Negate all elements: -X."""
